@@ -173,6 +173,9 @@ pub const CONTENT_PATTERNS: &[&str] = &[
     "(?s).*",
     "zzz-never-matche[s]",
     "[0-9]+",
+    // groups that are not called `value` select nothing: the whole match is the extract
+    "([a-z]+)=[0-9]+",
+    "(?P<key>[a-z]+)=",
 ];
 pub const INVALID_PATTERNS: &[&str] = &[
     "(", "[a-", "(?P<value>", "*a", "a{2,1}", "\\", "a)(b", "x)|(y", ")", "[a-z]+)=(?:[0-9]", "(?P<value>[a-z]+",
@@ -239,6 +242,34 @@ fn content_extract(pattern: &str, content: &str) -> Result<String, String> {
             }
             Ok(String::new())
         }
+        "([a-z]+)=[0-9]+" | "(?P<key>[a-z]+)=" => {
+            let with_digits = pattern.ends_with("[0-9]+");
+            let b = content.as_bytes();
+            let mut i = 0;
+            while i < b.len() {
+                if b[i].is_ascii_lowercase() {
+                    let start = i;
+                    while i < b.len() && b[i].is_ascii_lowercase() {
+                        i += 1;
+                    }
+                    if i < b.len() && b[i] == b'=' {
+                        if !with_digits {
+                            return Ok(content[start..i + 1].to_string());
+                        }
+                        let mut k = i + 1;
+                        while k < b.len() && b[k].is_ascii_digit() {
+                            k += 1;
+                        }
+                        if k > i + 1 {
+                            return Ok(content[start..k].to_string());
+                        }
+                    }
+                } else {
+                    i += 1;
+                }
+            }
+            Ok(String::new())
+        }
         "(?s).*" => Ok(content.to_string()),
         "zzz-never-matche[s]" => Ok(String::new()),
         "[0-9]+" => {
@@ -263,6 +294,12 @@ fn content_extract(pattern: &str, content: &str) -> Result<String, String> {
 
 pub fn content_extract_pub(pattern: &str, content: &str) -> String {
     content_extract(pattern, content).unwrap_or_default()
+}
+
+/// What "the block's trimmed content" means: white space in the Unicode sense (U+00A0, U+3000, a
+/// vertical tab, ... count) is removed at both ends.
+pub fn trim_content(s: &str) -> &str {
+    s.trim_matches(char::is_whitespace)
 }
 
 /// Rust's `str::trim` trims Unicode whitespace; the generators only use ASCII blanks around keys.
@@ -713,7 +750,7 @@ pub fn judge(world: &World) -> Judgement {
                 } else {
                     let content = match b.attr("check-lua-pattern") {
                         Some(p) => content_extract(p, &b.content),
-                        None => Ok(trim(&b.content).to_string()),
+                        None => Ok(trim_content(&b.content).to_string()),
                     };
                     match content {
                         Err(e) => RuleOutcome::Err(e),
